@@ -114,6 +114,10 @@ func parseActs(tok string) (acts []dact, ph bool, ok bool) {
 			d.a, d.b = hexArg(1), hexArg(2)
 		case "ae", "wr", "gt":
 			d.a = hexArg(1)
+		case "aw": // c.AbortWithStatus(code)
+			d.n = intArg(1)
+		case "am": // c.AbortWithStatus(code, msg)
+			d.n, d.a = intArg(1), hexArg(2)
 		default:
 			bad = true
 		}
@@ -545,6 +549,10 @@ func (cs *dcase) runActs(c *rux.Context, acts []dact, pos string) {
 			c.WriteBytes([]byte(a.a))
 		case "wh":
 			c.Resp.WriteHeader(a.n)
+		case "aw":
+			c.AbortWithStatus(a.n)
+		case "am":
+			c.AbortWithStatus(a.n, a.a)
 		case "rr":
 			c.Resp = &dispRecWriter{cs: cs, alt: a.n, hdr: http.Header{}}
 		case "rq":
@@ -1342,6 +1350,13 @@ func (panicEngine) Corpus() []Case {
 			"notfound pn:" + dxPV("h", "ueof"), "onpanic gt:" + keyRec + ",ss:502,wr:" + hx("bad gateway"), "serve r 1 - -", "serve r 2 - -", "serve r 3 7661 -", "serve nf 0", "serveh r 1 - -",
 			"nopanic", "serve r 1 - -", "serve r 2 - -", "onpanic ss:500", "serve r 1 - -"}, Tag: "corpus-sentinel"},
 		{Ops: []string{"new 0 0", "use PH", "route 1 s 0 pn:" + dxPV("h", "abort") + " em:1", "onerror pn:" + dxPV("h", "deadline"), "route 2 s 0 ae:6531", "onpanic -", "serve r 1 - -", "serve r 2 - -", "serve r 1 - -"}, Tag: "corpus-sentinel"},
+		// the hook answers with AbortWithStatus(500, msg) / AbortWithStatus(500) after a chain that was aborted before
+		// it panicked: an inner handler rejected with AbortWithStatus(403) and the outer middleware panics after
+		// Next(); a handler calls Abort() and panics
+		{Ops: []string{"new 0 0", "use em:1,nx," + boom, "route 1 s 0 aw:403", "route 2 s 0 ab," + boom, "onpanic am:500:" + hx("internal error"), "serve r 1 - -", "serve r 2 - -",
+			"onpanic gt:" + keyRec + ",aw:500", "serve r 1 - -", "serveh r 2 - -"}, Tag: "corpus-abort-hook"},
+		// AbortWithStatus with message in the chain, committed before the panic: the hook's status is not sent
+		{Ops: []string{"new 0 1", "route 1 d1 1 em:1,nx," + boom + " am:401:" + hx("denied") + ",em:2", "onpanic aw:500,dp", "serve r 1 7661 -", "serve na 1 7661 -", "serve r 1 7661 -"}, Tag: "corpus-abort-hook"},
 	}
 }
 
@@ -1425,7 +1440,81 @@ func (panicEngine) Gen(r *Rand, tier string) Case {
 	if dxSentinelStream(r, ops) {
 		tag += "+sentinel"
 	}
+	ops, ah := dxaAbortHookStream(r, ops)
+	if ah {
+		tag += "+aborthook"
+	}
 	return Case{Ops: ops, Tag: "hook=" + tag}
+}
+
+// dxaAbortHookStream (drawn after everything else of the case; one case in six): the OnPanic hook answers the way
+// the documentation shows it - c.AbortWithStatus(code) or c.AbortWithStatus(code, msg), alone, after reading the
+// recovered value, or followed by a dump - and in two thirds of these cases the chain is aborted before it panics:
+// every planted panic gets, with probability 1/2, an Abort() / AbortWithStatus(code[, msg]) right in front of it
+// (same handler), so the hook starts on an aborted context.
+func dxaAbortHookStream(r *Rand, ops []string) ([]string, bool) {
+	if !r.Chance(1, 6) {
+		return ops, false
+	}
+	abortTok := func() string {
+		code := strconv.Itoa(r.PickInt([]int{500, 500, 503, 403, 401, 200, 0}))
+		if r.Bool() {
+			return "aw:" + code
+		}
+		return "am:" + code + ":" + hx(r.Pick([]string{"internal error", "denied", ""}))
+	}
+	hook := []string{abortTok()}
+	switch r.Intn(4) {
+	case 0:
+		hook = append([]string{"gt:" + keyRec}, hook...)
+	case 1:
+		hook = append(hook, "dp")
+	}
+	line := "onpanic " + tok(hook)
+	firstServe, placed := -1, false
+	for i, op := range ops {
+		if strings.HasPrefix(op, "serve") {
+			firstServe = i
+			break
+		}
+		if strings.HasPrefix(op, "onpanic ") {
+			ops[i] = line
+			placed = true
+		}
+	}
+	if firstServe < 0 {
+		return ops, false
+	}
+	if !placed {
+		ops = append(ops[:firstServe:firstServe], append([]string{line}, ops[firstServe:]...)...)
+	}
+	if r.Chance(2, 3) {
+		for i, op := range ops {
+			f := strings.Fields(op)
+			if len(f) == 0 || strings.HasPrefix(f[0], "serve") || f[0] == "onpanic" {
+				continue
+			}
+			for j, t := range f {
+				if j == 0 || !strings.Contains(t, "pn:") {
+					continue
+				}
+				var out []string
+				for _, a := range strings.Split(t, ",") {
+					if strings.HasPrefix(a, "pn:") && r.Bool() {
+						if r.Chance(1, 3) {
+							out = append(out, "ab")
+						} else {
+							out = append(out, abortTok())
+						}
+					}
+					out = append(out, a)
+				}
+				f[j] = strings.Join(out, ",")
+			}
+			ops[i] = strings.Join(f, " ")
+		}
+	}
+	return ops, true
 }
 
 // dxSetHandlersStream (drawn after everything else of the case; one case in six): a handler of route A hands the
